@@ -47,6 +47,7 @@ func main() {
 	ms := flag.Int("ms", 4000, "duration")
 	nkeys := flag.Int("keys", 600, "")
 	size := flag.Int("size", 24*1024, "cache capacity (cost = key + value octets)")
+	pairs := flag.Int("pairs", 0, "rounds of one plain store racing one store-if-absent on a fresh key")
 	nopoison := flag.Bool("nopoison", false, "released buffers go straight back to the pool (as in production)")
 	flag.Parse()
 	if *nopoison {
@@ -55,6 +56,10 @@ func main() {
 	seed := vtrace.Seed()
 	tr = vtrace.Open(*out)
 	defer tr.Close()
+	if *pairs > 0 {
+		pairPhase(*pairs)
+		return
+	}
 	c, err := cache.NewMemoryCache(*size)
 	if err != nil {
 		panic(err)
@@ -133,4 +138,63 @@ func main() {
 	c.Close()
 	tr.Emit("mc.sum", "gets", gets.Load(), "hits", hits.Load(), "stores", stores.Load(), "odd", odd.Load())
 	fmt.Printf("gets=%d hits=%d stores=%d odd=%d events=%d\n", gets.Load(), hits.Load(), stores.Load(), odd.Load(), tr.N)
+}
+
+// pairPhase: on a cache with ample room, a plain store (version 1, what a positive answer does) and a
+// store-if-absent (version 2, what an error response does) for the same fresh key are released at the same
+// instant. Whatever the order, once both have returned the key holds version 1: either the store-if-absent
+// found the key present, or the plain store replaced what it had put there.
+func pairPhase(rounds int) {
+	c, err := cache.NewMemoryCache(32 << 20)
+	if err != nil {
+		panic(err)
+	}
+	defer c.Close()
+	var round atomic.Int64 // bumped by the coordinator: both workers spin on it
+	var done sync.WaitGroup
+	exp := time.Now().Add(time.Hour)
+	worker := func(n int, nx bool) {
+		last := int64(0)
+		for {
+			r := round.Load()
+			if r == last {
+				continue
+			}
+			if r < 0 {
+				return
+			}
+			last = r
+			k := 1000000 + int(r)
+			c.Store(keyBytes(k), epoch.Add(time.Duration(k*100000+n)*time.Second), exp, mkValue(k, n, exp, 24), nx)
+			done.Done()
+		}
+	}
+	go worker(1, false)
+	go worker(2, true)
+	neg := 0
+	for r := 1; r <= rounds; r++ {
+		done.Add(2)
+		round.Store(int64(r))
+		done.Wait()
+		k := 1000000 + r
+		v, _, _ := c.Get(keyBytes(k))
+		got := 0
+		if len(v) >= hdr && int(binary.BigEndian.Uint32(v)) == k {
+			got = int(binary.BigEndian.Uint32(v[4:]))
+		} else if v != nil {
+			got = -1
+		}
+		if v != nil {
+			pool.ReleaseBuf(v)
+		}
+		if got != 1 {
+			neg++
+		}
+		if got != 1 || r%10 == 0 {
+			tr.Emit("mc.pair", "k", k, "got", got)
+		}
+	}
+	round.Store(-1)
+	tr.Emit("mc.sum", "gets", rounds, "hits", rounds, "stores", 2*rounds, "odd", neg)
+	fmt.Printf("pairs=%d not-positive=%d events=%d\n", rounds, neg, tr.N)
 }
